@@ -330,6 +330,27 @@ def gen_tree_case(rng, i):
 
 
 def gen_uproj_case(rng, i):
+  """a case the SLSQP helper can be judged on (non-empty feasible set, affine and independent active constraints); for the
+  equality-surplus third also one whose pushed point exists - retried instead of left to the draw"""
+  c = None
+  for _ in range(16):
+    c = gen_uproj_case_once(rng, i)
+    try:
+      dev = tg.build_tree(c['t'])
+      desc = cc.linear_description(dev)
+      p = uproj_point(c, desc)
+      ref = cc.nearest(p, desc)
+      if ref is None or not desc[6] or cc.degenerate(desc) or cc.licq_fails(ref, desc):
+        continue
+      if c.get('eqpush') and [float(v) for v in p] == [float(v) for v in c['p']]:
+        continue
+      return c
+    except Exception:
+      continue
+  return c
+
+
+def gen_uproj_case_once(rng, i):
   depth = pick(rng, [0, 0, 1, 1, 2])
   T = tg.gen_tree(rng, depth, lengths=[1, 2, 3, 4], classes=UPROJ_CLASSES, mf_classes=UPROJ_CLASSES, fanout=3)
   if i % 3 == 1:   # a set whose aggregate is pinned in some or all slots (equality constraints), few adaptors, no label balancing
@@ -420,6 +441,8 @@ def gen_cases(rng, tier):
   for i in range(40 * k):
     l = 1 + rng.randrange(5)
     r = 1 + rng.randrange(4)
+    if i % 8 in (1, 6):
+      l = r = 2 + (i // 8) % 3      # SQUARE point matrices (as many sub regions as dimensions) for both axes: the layout is the axis', not the shape's
     rs = [gen_vec_region(rng, l) for _ in range(r)]
     axis = i % 2
     shape = (r, l) if axis == 0 else (l, r)
